@@ -15,7 +15,7 @@ package aclfilter
 //@ pure maySee_filterCheckServiceNodes(f *Filter, x structs.CheckServiceNode) bool = x.Node != nil && x.Service != nil && f.authorizer.NodeRead(x.Node.Node, &acl.AuthorizerContext{Peer: x.Service.PeerName}) == acl.Allow && f.authorizer.ServiceRead(x.Service.Service, &acl.AuthorizerContext{Peer: x.Service.PeerName}) == acl.Allow
 //@ pure maySee_filterServiceList(f *Filter, x structs.ServiceName) bool = f.authorizer.ServiceRead(x.Name, &acl.AuthorizerContext{}) == acl.Allow
 //@ pure maySee_filterGatewayServices(f *Filter, x *structs.GatewayService) bool = f.authorizer.ServiceRead(x.Service.Name, &acl.AuthorizerContext{}) == acl.Allow
-//@ pure maySee_filterIntentions(f *Filter, x *structs.Intention) bool = x.CanRead(f.authorizer)
+//@ pure maySee_filterIntentions(f *Filter, x *structs.Intention) bool = (x.SourceName != "" && x.SourcePeer == "" && f.authorizer.IntentionRead(x.SourceName, &acl.AuthorizerContext{}) == acl.Allow) || (x.DestinationName != "" && f.authorizer.IntentionRead(x.DestinationName, &acl.AuthorizerContext{}) == acl.Allow)
 
 //@ func Filter.filterHealthChecks
 //@ props C09
@@ -26,6 +26,7 @@ package aclfilter
 //@ ensures[only-input-elements] forall j int :: 0 <= j && j < len(*checks) ==> exists o int :: 0 <= o && o < len(old(*checks)) && eq((*checks)[j], old(*checks)[o])
 //@ ensures[nothing-readable-dropped] forall o int :: 0 <= o && o < len(old(*checks)) && maySee_filterHealthChecks(f, old(*checks)[o]) ==> exists j int :: 0 <= j && j < len(*checks) && eq((*checks)[j], old(*checks)[o])
 //@ ensures[flag-iff-removed] removed <==> len(*checks) < len(old(*checks))
+//@ ensures[never-longer] len(*checks) <= len(old(*checks))
 //@ modifies *checks
 //@ loop 1 invariant[bounds] 0 <= i && i <= len(hc) && len(hc) <= len(old(*checks))
 //@ loop 1 invariant[kept-allowed] forall j int :: 0 <= j && j < i ==> maySee_filterHealthChecks(f, hc[j])
@@ -43,6 +44,7 @@ package aclfilter
 //@ ensures[only-input-elements] forall j int :: 0 <= j && j < len(*nodes) ==> exists o int :: 0 <= o && o < len(old(*nodes)) && eq((*nodes)[j], old(*nodes)[o])
 //@ ensures[nothing-readable-dropped] forall o int :: 0 <= o && o < len(old(*nodes)) && maySee_filterServiceNodes(f, old(*nodes)[o]) ==> exists j int :: 0 <= j && j < len(*nodes) && eq((*nodes)[j], old(*nodes)[o])
 //@ ensures[flag-iff-removed] removed <==> len(*nodes) < len(old(*nodes))
+//@ ensures[never-longer] len(*nodes) <= len(old(*nodes))
 //@ modifies *nodes
 //@ loop 1 invariant[bounds] 0 <= i && i <= len(sn) && len(sn) <= len(old(*nodes))
 //@ loop 1 invariant[kept-allowed] forall j int :: 0 <= j && j < i ==> maySee_filterServiceNodes(f, sn[j])
@@ -60,6 +62,7 @@ package aclfilter
 //@ ensures[only-input-elements] forall j int :: 0 <= j && j < len(*coords) ==> exists o int :: 0 <= o && o < len(old(*coords)) && eq((*coords)[j], old(*coords)[o])
 //@ ensures[nothing-readable-dropped] forall o int :: 0 <= o && o < len(old(*coords)) && maySee_filterCoordinates(f, old(*coords)[o]) ==> exists j int :: 0 <= j && j < len(*coords) && eq((*coords)[j], old(*coords)[o])
 //@ ensures[flag-iff-removed] removed <==> len(*coords) < len(old(*coords))
+//@ ensures[never-longer] len(*coords) <= len(old(*coords))
 //@ modifies *coords
 //@ loop 1 invariant[bounds] 0 <= i && i <= len(c) && len(c) <= len(old(*coords))
 //@ loop 1 invariant[kept-allowed] forall j int :: 0 <= j && j < i ==> maySee_filterCoordinates(f, c[j])
@@ -77,6 +80,7 @@ package aclfilter
 //@ ensures[only-input-elements] forall j int :: 0 <= j && j < len(*nodes) ==> exists o int :: 0 <= o && o < len(old(*nodes)) && eq((*nodes)[j], old(*nodes)[o])
 //@ ensures[nothing-readable-dropped] forall o int :: 0 <= o && o < len(old(*nodes)) && maySee_filterNodes(f, old(*nodes)[o]) ==> exists j int :: 0 <= j && j < len(*nodes) && eq((*nodes)[j], old(*nodes)[o])
 //@ ensures[flag-iff-removed] removed <==> len(*nodes) < len(old(*nodes))
+//@ ensures[never-longer] len(*nodes) <= len(old(*nodes))
 //@ modifies *nodes
 //@ loop 1 invariant[bounds] 0 <= i && i <= len(n) && len(n) <= len(old(*nodes))
 //@ loop 1 invariant[kept-allowed] forall j int :: 0 <= j && j < i ==> maySee_filterNodes(f, n[j])
@@ -94,6 +98,7 @@ package aclfilter
 //@ ensures[only-input-elements] forall j int :: 0 <= j && j < len(*sessions) ==> exists o int :: 0 <= o && o < len(old(*sessions)) && eq((*sessions)[j], old(*sessions)[o])
 //@ ensures[nothing-readable-dropped] forall o int :: 0 <= o && o < len(old(*sessions)) && maySee_filterSessions(f, old(*sessions)[o]) ==> exists j int :: 0 <= j && j < len(*sessions) && eq((*sessions)[j], old(*sessions)[o])
 //@ ensures[flag-iff-removed] removed <==> len(*sessions) < len(old(*sessions))
+//@ ensures[never-longer] len(*sessions) <= len(old(*sessions))
 //@ modifies *sessions
 //@ loop 1 invariant[bounds] 0 <= i && i <= len(s) && len(s) <= len(old(*sessions))
 //@ loop 1 invariant[kept-allowed] forall j int :: 0 <= j && j < i ==> maySee_filterSessions(f, s[j])
@@ -110,6 +115,7 @@ package aclfilter
 //@ ensures[only-input-elements] forall j int :: 0 <= j && j < len(*nodes) ==> exists o int :: 0 <= o && o < len(old(*nodes)) && eq((*nodes)[j], old(*nodes)[o])
 //@ ensures[nothing-readable-dropped] forall o int :: 0 <= o && o < len(old(*nodes)) && maySee_filterCheckServiceNodes(f, old(*nodes)[o]) ==> exists j int :: 0 <= j && j < len(*nodes) && eq((*nodes)[j], old(*nodes)[o])
 //@ ensures[flag-iff-removed] removed <==> len(*nodes) < len(old(*nodes))
+//@ ensures[never-longer] len(*nodes) <= len(old(*nodes))
 //@ modifies *nodes
 //@ loop 1 invariant[bounds] 0 <= i && i <= len(csn) && len(csn) <= len(old(*nodes))
 //@ loop 1 invariant[kept-allowed] forall j int :: 0 <= j && j < i ==> maySee_filterCheckServiceNodes(f, csn[j])
@@ -126,6 +132,7 @@ package aclfilter
 //@ ensures[only-input-elements] forall j int :: 0 <= j && j < len(*services) ==> exists o int :: 0 <= o && o < len(old(*services)) && eq((*services)[j], old(*services)[o])
 //@ ensures[nothing-readable-dropped] forall o int :: 0 <= o && o < len(old(*services)) && maySee_filterServiceList(f, old(*services)[o]) ==> exists j int :: 0 <= j && j < len(*services) && eq((*services)[j], old(*services)[o])
 //@ ensures[flag-iff-removed] removed <==> len(*services) < len(old(*services))
+//@ ensures[never-longer] len(*services) <= len(old(*services))
 //@ modifies *services
 //@ loop 1 invariant[bounds] 0 <= len(ret) && len(ret) <= range1_idx
 //@ loop 1 invariant[kept-allowed] forall j int :: 0 <= j && j < len(ret) ==> maySee_filterServiceList(f, ret[j])
@@ -142,6 +149,7 @@ package aclfilter
 //@ ensures[only-input-elements] forall j int :: 0 <= j && j < len(*mappings) ==> exists o int :: 0 <= o && o < len(old(*mappings)) && eq((*mappings)[j], old(*mappings)[o])
 //@ ensures[nothing-readable-dropped] forall o int :: 0 <= o && o < len(old(*mappings)) && maySee_filterGatewayServices(f, old(*mappings)[o]) ==> exists j int :: 0 <= j && j < len(*mappings) && eq((*mappings)[j], old(*mappings)[o])
 //@ ensures[flag-iff-removed] removed <==> len(*mappings) < len(old(*mappings))
+//@ ensures[never-longer] len(*mappings) <= len(old(*mappings))
 //@ modifies *mappings
 //@ loop 1 invariant[bounds] 0 <= len(ret) && len(ret) <= range1_idx
 //@ loop 1 invariant[kept-allowed] forall j int :: 0 <= j && j < len(ret) ==> maySee_filterGatewayServices(f, ret[j])
@@ -158,6 +166,7 @@ package aclfilter
 //@ ensures[only-input-elements] forall j int :: 0 <= j && j < len(*ixns) ==> exists o int :: 0 <= o && o < len(old(*ixns)) && eq((*ixns)[j], old(*ixns)[o])
 //@ ensures[nothing-readable-dropped] forall o int :: 0 <= o && o < len(old(*ixns)) && maySee_filterIntentions(f, old(*ixns)[o]) ==> exists j int :: 0 <= j && j < len(*ixns) && eq((*ixns)[j], old(*ixns)[o])
 //@ ensures[flag-iff-removed] removed <==> len(*ixns) < len(old(*ixns))
+//@ ensures[never-longer] len(*ixns) <= len(old(*ixns))
 //@ modifies *ixns
 //@ loop 1 invariant[bounds] 0 <= len(ret) && len(ret) <= range1_idx
 //@ loop 1 invariant[kept-allowed] forall j int :: 0 <= j && j < len(ret) ==> maySee_filterIntentions(f, ret[j])
@@ -195,3 +204,51 @@ package aclfilter
 //@ loop 1 invariant[flag-so-far] v.ResultsFilteredByACLs <==> (old(as[*structs.IndexedExportedServiceList](subject).ResultsFilteredByACLs) || exists p string :: range1_visited[p] && old(has(v.Services, p)) && len(v.Services[p]) < len(old(v.Services[p])))
 //@ loop 1 invariant[unvisited-untouched] forall p string :: !range1_visited[p] ==> (has(v.Services, p) <==> old(has(v.Services, p))) && eq(v.Services[p], old(v.Services[p]))
 //@ loop 1 invariant[visited-were-present] forall p string :: range1_visited[p] ==> old(has(v.Services, p))
+
+//@ file filter.go
+
+// per-datacenter map of check-service nodes: the flag is raised iff some datacenter's list got shorter
+//@ func Filter.filterDatacenterCheckServiceNodes
+//@ props C09
+//@ results removed
+//@ requires f != nil && datacenterNodes != nil
+//@ ensures[flag-iff-some-list-shrank] removed <==> exists dc string :: old(has(*datacenterNodes, dc)) && len((*datacenterNodes)[dc]) < len(old((*datacenterNodes)[dc]))
+//@ ensures[nothing-unreadable-returned] forall dc string, j int :: has(*datacenterNodes, dc) && 0 <= j && j < len((*datacenterNodes)[dc]) ==> maySee_filterCheckServiceNodes(f, (*datacenterNodes)[dc][j])
+//@ ensures[no-new-datacenters] forall dc string :: has(*datacenterNodes, dc) ==> old(has(*datacenterNodes, dc))
+//@ loop 1 invariant[flag-so-far] removed <==> exists d string :: range1_visited[d] && ((has(out, d) && len(out[d]) < len(dn[d])) || (!has(out, d) && len(dn[d]) > 0))
+//@ loop 1 invariant[out-only-visited] forall d string :: has(out, d) ==> range1_visited[d] && has(dn, d)
+//@ loop 1 invariant[out-readable] forall d string, j int :: has(out, d) && 0 <= j && j < len(out[d]) ==> maySee_filterCheckServiceNodes(f, out[d][j])
+//@ loop 1 invariant[out-not-longer] forall d string :: has(out, d) ==> len(out[d]) <= len(dn[d]) && len(out[d]) > 0
+//@ loop 1 invariant[input-untouched] forall d string :: (has(dn, d) <==> old(has(*datacenterNodes, d))) && eq(dn[d], old((*datacenterNodes)[d]))
+
+// node dump: nodes, then each readable node's services and checks are filtered in place
+//@ pure maySeeDumpNode(f *Filter, n *structs.NodeInfo) bool = f.allowNode(n.Node, &acl.AuthorizerContext{Peer: n.PeerName})
+//@ pure maySeeDumpService(f *Filter, n *structs.NodeInfo, s *structs.NodeService) bool = f.allowNode(n.Node, &acl.AuthorizerContext{Peer: s.PeerName}) && f.allowService(s.Service, &acl.AuthorizerContext{Peer: s.PeerName})
+//@ pure maySeeDumpCheck(f *Filter, n *structs.NodeInfo, c *structs.HealthCheck) bool = f.allowNode(n.Node, &acl.AuthorizerContext{Peer: c.PeerName}) && f.allowService(c.ServiceName, &acl.AuthorizerContext{Peer: c.PeerName})
+//@ pure dumpNodeShrunk(n *structs.NodeInfo) bool = len(n.Services) < len(old(n.Services)) || len(n.Checks) < len(old(n.Checks))
+
+//@ func Filter.filterNodeDump
+//@ props C09
+//@ results removed
+//@ requires f != nil && dump != nil
+//@ requires[nodes-non-nil-distinct] (forall j int :: 0 <= j && j < len(*dump) ==> (*dump)[j] != nil) && (forall a int, b int :: 0 <= a && a < b && b < len(*dump) ==> (*dump)[a] != (*dump)[b])
+//@ requires[members-non-nil] forall j int, k int :: 0 <= j && j < len(*dump) && 0 <= k ==> (k < len((*dump)[j].Services) ==> (*dump)[j].Services[k] != nil) && (k < len((*dump)[j].Checks) ==> (*dump)[j].Checks[k] != nil)
+//@ ensures[nodes-readable] forall j int :: 0 <= j && j < len(*dump) ==> maySeeDumpNode(f, (*dump)[j])
+//@ ensures[services-readable] forall j int, k int :: 0 <= j && j < len(*dump) && 0 <= k && k < len((*dump)[j].Services) ==> maySeeDumpService(f, (*dump)[j], (*dump)[j].Services[k])
+//@ ensures[checks-readable] forall j int, k int :: 0 <= j && j < len(*dump) && 0 <= k && k < len((*dump)[j].Checks) ==> maySeeDumpCheck(f, (*dump)[j], (*dump)[j].Checks[k])
+//@ ensures[only-input-nodes] forall j int :: 0 <= j && j < len(*dump) ==> exists o int :: 0 <= o && o < len(old(*dump)) && (*dump)[j] == old(*dump)[o]
+//@ ensures[flag-iff-something-removed] removed <==> (len(*dump) < len(old(*dump)) || exists j int :: 0 <= j && j < len(*dump) && dumpNodeShrunk((*dump)[j]))
+//@ loop 1 invariant[bounds] 0 <= i && i <= len(nd) && len(nd) <= len(old(*dump))
+//@ loop 1 invariant[tail-is-input-tail] forall j int :: i <= j && j < len(nd) ==> nd[j] == old(*dump)[j + len(old(*dump)) - len(nd)]
+//@ loop 1 invariant[kept-from-input] forall j int :: 0 <= j && j < i ==> exists o int :: 0 <= o && o < i + len(old(*dump)) - len(nd) && nd[j] == old(*dump)[o]
+//@ loop 1 invariant[processed-nodes-readable] forall j int :: 0 <= j && j < i ==> maySeeDumpNode(f, nd[j])
+//@ loop 1 invariant[processed-services-readable] forall j int, k int :: 0 <= j && j < i && 0 <= k && k < len(nd[j].Services) ==> maySeeDumpService(f, nd[j], nd[j].Services[k])
+//@ loop 1 invariant[processed-checks-readable] forall j int, k int :: 0 <= j && j < i && 0 <= k && k < len(nd[j].Checks) ==> maySeeDumpCheck(f, nd[j], nd[j].Checks[k])
+//@ loop 1 invariant[unprocessed-untouched] forall o int :: i + len(old(*dump)) - len(nd) <= o && o < len(old(*dump)) ==> eq(old(*dump)[o].Services, old(old(*dump)[o].Services)) && eq(old(*dump)[o].Checks, old(old(*dump)[o].Checks))
+//@ loop 1 invariant[flag] removed <==> (len(nd) < len(old(*dump)) || exists j int :: 0 <= j && j < i && dumpNodeShrunk(nd[j]))
+//@ loop 2 invariant[bounds] 0 <= j && j <= len(info.Services) && len(info.Services) <= len(old(info.Services))
+//@ loop 2 invariant[kept-readable] forall k int :: 0 <= k && k < j ==> maySeeDumpService(f, info, info.Services[k])
+//@ loop 2 invariant[flag] removed <==> (len(nd) < len(old(*dump)) || (exists q int :: 0 <= q && q < i && dumpNodeShrunk(nd[q])) || len(info.Services) < len(old(info.Services)))
+//@ loop 3 invariant[bounds] 0 <= j && j <= len(info.Checks) && len(info.Checks) <= len(old(info.Checks))
+//@ loop 3 invariant[kept-readable] forall k int :: 0 <= k && k < j ==> maySeeDumpCheck(f, info, info.Checks[k])
+//@ loop 3 invariant[flag] removed <==> (len(nd) < len(old(*dump)) || (exists q int :: 0 <= q && q < i && dumpNodeShrunk(nd[q])) || len(info.Services) < len(old(info.Services)) || len(info.Checks) < len(old(info.Checks)))
